@@ -47,11 +47,15 @@ def u32(n):
     return [(n >> 24) & 255, (n >> 16) & 255, (n >> 8) & 255, n & 255]
 
 
+HASHES = []          # hash values of the string file in use (set per dump by run_case)
+
+
 def buffer(rng, name):
     body = []
     for _ in range(rng.randrange(0, 3)):
         ln = rng.choice([0, 4, 8])
-        body += [0, 10, 0, rng.randrange(256), 0, ln, 0x46, 0x54] + u32(rng.randrange(1 << 32)) + u32(rng.randrange(9999)) \
+        h = int(rng.choice(HASHES)) if HASHES and rng.random() < .7 else rng.randrange(1 << 32)
+        body += [0, 10, 0, rng.randrange(256), 0, ln, 0x46, 0x54] + u32(h & 0xFFFFFFFF) + u32(rng.randrange(9999)) \
             + [rng.randrange(256) for _ in range(ln)] + u32(16 + ln + 4)
     comp = [ord(c) for c in name] + [0x20] * 8
     return START + comp + [0, 0, 0, 0] + u32(32 + len(body)) + u32(rng.randrange(9)) + u32(0) + body
@@ -132,11 +136,27 @@ def run_case(case):
     from io_drawer.ilog import parse_ilog_data
     from io_drawer.trace import parse_trace_data
     rng = random.Random(case['seed'])
-    hdr = os.path.join(drawer.io_dir(), 'mex_pte.h')
-    strf = os.path.join(drawer.io_dir(), 'mexStringFile')
     d = seams.scratch_dir('c17')
     recs = []
+    from . import c14, c15
     for k in range(case['start'], case['start'] + case['n']):
+        # which tables the dump is decoded with: the shipped ones of either drawer type, or synthetic ones written
+        # to scratch paths that come back with other content from dump to dump
+        which = k % 4
+        if which < 2:
+            t = ['mex', 'nimitz'][which]
+            hdr = os.path.join(drawer.io_dir(), t + '_pte.h')
+            strf = os.path.join(drawer.io_dir(), t + 'StringFile')
+            strings = drawer.read_string_file(strf)
+        else:
+            hdr = os.path.join(d, 'synthetic_pte_%d.h' % (k % 2))
+            strf = os.path.join(d, 'synthetic_strings_%d' % (k % 2))
+            strings = c15.synthetic_strings(rng)
+            with open(hdr, 'w') as f:
+                f.write(drawer.render_pte_header(rng, c14.synthetic(rng)))
+            with open(strf, 'w') as f:
+                f.write(drawer.render_string_file(rng, strings))
+        HASHES[:] = [s['hash'] for s in strings][:400]
         data = build(rng, k)
         raw = bytes(data)
         lines = parse_dump_data(memoryview(raw), hdr, strf)
